@@ -33,6 +33,16 @@ CHECKS = {
  "C20": dict(level=MC, engine="E2-sched", technique="iterative preemption-bounded exhaustive schedule exploration (cooperative scheduler at real Mutex/RWMutex acquisitions) + separate free-running -race pass",
    text="No schedule of the four thread programs on a real node core up to the preemption bound deadlocks, panics or exceeds the step horizon, and the registry, routing table and published gossip state agree at quiescence.",
    note="Scheduling points = lock acquisitions of manager, cluster.State, syncer, gossip state, failure detector; unsynchronised accesses are covered only by the separate free-running -race pass (sampling).", ref="3 C20, 2.2"),
+
+ "C12": dict(level=MC, engine="E3-seq", technique="exhaustive enumeration of all arrival histories up to length window+k on the real detector against an exact rational reference",
+   text="For every arrival history over the gap alphabet up to a length beyond the sample window, every window size and bootstrap interval in the grid, the real detector's suspicion level at five query offsets equals silence / mean(last W intervals) computed in exact rationals; zero at arrival, monotone in silence, above the threshold after 21 means of silence, never above it for steady peers.",
+   note="Gaps {1,2,5,50(,1000)} units, windows 1-4(5), bootstrap {2,7}; first contact by report or by query.", ref="3 C12"),
+ "C13": dict(level="exploration", engine="E3-seq + E1-gmc", technique="exhaustive sweep of every max packet size per content; every datagram emitted in explored gossip worlds; every byte string up to length L and every 1-edit neighbour of real datagrams/streams fed to the real handlers",
+   text="Every (content, max size) pair in the grid encodes within the limit to the maximal whole-entry prefix; every datagram emitted by real nodes in the explored worlds fits, decodes, is version-ordered and maximal; every hostile input in the enumerated set is applied or rejected without panic, hang or change to the node's own state.",
+   note="Exhaustive in the stated grid, not over all byte strings. Hostile inputs run in a worker process with an address-space limit and a watchdog. Finding D6 repaired by a fix: commit.", ref="3 C13"),
+ "C19": dict(level="exploration", engine="E3-seq", technique="exhaustive grid of configurations x load distributions on the real Rebalance() with real yamux sessions, exact-arithmetic oracle",
+   text="For every threshold, shed rate, minimum, local connection count and multiset of other nodes (status x connections) in the grid, one Rebalance() call closes no more than max(1, ceil(rate x avg)) sessions, never more than are open, and only when other nodes are known, the minimum is met and the excess over the whole-connection average reaches the threshold.",
+   note="Dyadic parameters so float and rational arithmetic agree at boundaries. The 'only when enabled' clause (threshold 0 starts no rebalance task) is in server.go and is covered by the node-level check once built.", ref="3 C19"),
 }
 
 PENDING = {
